@@ -7,7 +7,7 @@ import time
 import z3
 
 from . import loader
-from .core import (REG, RefV, Ty, VerifError, PathEnd, Infeasible, Ctx, MODELS, T_ANY, parse_type, sort_of)
+from .core import (REG, RefV, ArrV, Ty, VerifError, PathEnd, Infeasible, Ctx, MODELS, T_ANY, parse_type, sort_of)
 from .values import Frame, FuncV, ReturnSig, RaiseSig, BreakSig, ContinueSig, ExcV
 from .interp_expr import ExprMixin
 from .interp_stmt import StmtMixin
@@ -23,6 +23,7 @@ class Interp(ExprMixin, StmtMixin, CallMixin, BuiltinMixin):
         self.frames = []
         self.spec_env = {}
         self.old_heap_stack = []
+        self.fresh_base_stack = []
         self._class_cache = {}
         self.cur_exc = None
         self.cur_line = 0
@@ -46,7 +47,7 @@ class Interp(ExprMixin, StmtMixin, CallMixin, BuiltinMixin):
                 if vt.startswith("arr["):
                     ety = parse_type(vt[4:-1])
                     v = z3.Const("%s!ax" % vn, z3.ArraySort(z3.IntSort(), sort_of(ety, self.ctx.num)))
-                    env[vn] = v
+                    env[vn] = ArrV(v, ety)
                 else:
                     ty = parse_type(vt)
                     v = z3.Const("%s!ax" % vn, sort_of(ty, self.ctx.num))
@@ -111,7 +112,11 @@ class Interp(ExprMixin, StmtMixin, CallMixin, BuiltinMixin):
             if k not in fr.env:
                 fr.env[k] = v
         if outcome == "raise":
-            if exc.name in raise_conds:
+            if exc.name in c.may_raise:
+                for i, cl in enumerate(c.may_raise[exc.name]):
+                    self.oblige("raised-%s/ensures[%d]:%s" % (exc.name, i, cl[:70]), self.eval_clause(cl), kind="ensures")
+                ctx.oblige(self.prefix + "cover:raise-%s" % exc.name, z3.BoolVal(False), "cover", True)
+            elif exc.name in raise_conds:
                 self.oblige("raises:%s-only-when:%s" % (exc.name, c.raises[exc.name][:60]), raise_conds[exc.name],
                             kind="raises")
                 ctx.oblige(self.prefix + "cover:raise-%s" % exc.name, z3.BoolVal(False), "cover", True)
@@ -123,6 +128,7 @@ class Interp(ExprMixin, StmtMixin, CallMixin, BuiltinMixin):
         rty = self.return_type(c, f)
         if rty is not None and rty.kind == "float" and result is not None:
             result = ctx.to_float(result)
+        self.add_axioms(c.ghost.get("late_axioms") or [])
         for i, e in enumerate(c.ensures):
             self.oblige("ensures[%d]:%s" % (i, e[:80]), self.eval_clause(e, {"result": result}), kind="ensures")
         self.frame_obligations(c, entry_heap)
@@ -133,6 +139,9 @@ class Interp(ExprMixin, StmtMixin, CallMixin, BuiltinMixin):
 
     def fresh_param(self, name, ty):
         ctx = self.ctx
+        if isinstance(ty, str) and ty.startswith("arr["):
+            ety = parse_type(ty[4:-1])
+            return ArrV(ctx.fresh("in$" + name, z3.ArraySort(z3.IntSort(), sort_of(ety, ctx.num))), ety)
         if ty.kind == "tuple":
             return tuple(self.fresh_param("%s.%d" % (name, i), a) for i, a in enumerate(ty.args))
         v = ctx.fresh_of_type("in$" + name, ty)
